@@ -124,6 +124,29 @@ func c14Frames() *poolFrames {
 	}
 	add([]byte{0x20, 0x07, 0x00, 0x00, 0x04, 0x0b, 0x07, 0x0b, 0x09})
 	add([]byte{0xe0, 0x04, 0x00, 0x02, 0x0b, 0x07})
+	// frames of remaining length 0 (a decoder may hand out one shared packet
+	// for them), a CONNECT without will (decoded into a packet that has one),
+	// a PUBLISH that uses the topic alias of the rich one with an empty topic
+	// (a decoder may keep an alias table), acknowledgements without reason codes
+	add([]byte{0xe0, 0x00})
+	add([]byte{0xf0, 0x00})
+	add([]byte{0xc0, 0x00})
+	add([]byte{0xd0, 0x00})
+	add(mustEncode(minimalPacket(1), spec.Form{}))
+	if rp := richPacket(3, true); true {
+		ap := minimalPacket(3)
+		ap.Topic = nil
+		for _, pr := range rp.Props {
+			if pr.ID == 0x23 {
+				ap.Props = []spec.Prop{pr}
+			}
+		}
+		if len(ap.Props) == 1 {
+			add(mustEncode(ap, spec.Form{}))
+		}
+	}
+	add([]byte{0x90, 0x03, 0x00, 0x01, 0x00})
+	add([]byte{0xb0, 0x03, 0x00, 0x01, 0x00})
 	pf.probe = c14Probe()
 	for i, f := range pf.frames {
 		p, err, res := readPacket(bytes.NewReader(f), stepBudget(len(f)))
@@ -164,6 +187,24 @@ func c14Mutators(p mq.Packet) []sop {
 					fs[len(fs)-1].SetFilter("z")
 				}
 			}},
+		}
+	}
+	switch a := p.(type) {
+	case *mq.SubAck:
+		// acknowledgements are changed through their code list as well
+		return []sop{
+			{Name: "SetPacketID(77)", Call: func(q any) { q.(*mq.SubAck).SetPacketID(77) }},
+			{Name: "AddReasonCode(0x80)", Call: func(q any) { q.(*mq.SubAck).AddReasonCode(0x80) }},
+			{Name: "AddUserProp", Call: func(q any) { q.(*mq.SubAck).AddUserProp("late", "prop") }},
+			{Name: "AddReasonCode(0x11,0x2f)", Call: func(q any) { q.(*mq.SubAck).AddReasonCode(0x11); q.(*mq.SubAck).AddReasonCode(0x2f) }},
+		}
+	case *mq.UnsubAck:
+		_ = a
+		return []sop{
+			{Name: "SetPacketID(77)", Call: func(q any) { q.(*mq.UnsubAck).SetPacketID(77) }},
+			{Name: "AddReasonCode(0x80)", Call: func(q any) { q.(*mq.UnsubAck).AddReasonCode(0x80) }},
+			{Name: "AddUserProp", Call: func(q any) { q.(*mq.UnsubAck).AddUserProp("late", "prop") }},
+			{Name: "AddReasonCode(0x11,0x2f)", Call: func(q any) { q.(*mq.UnsubAck).AddReasonCode(0x11); q.(*mq.UnsubAck).AddReasonCode(0x2f) }},
 		}
 	}
 	name := strings.TrimPrefix(fmt.Sprintf("%T", p), "*mq.")
@@ -245,6 +286,11 @@ func c14Run(pf *poolFrames, ops []poolOp, seq []int, globals0 digest.Sum) (f *co
 				return nil, false
 			}
 			fr := pf.frames[o.Frame]
+			if o.Kind != 'r' && pf.hdr[o.Frame] == len(fr) && pf.types[o.Frame] != 0 {
+				// no body: ReadPacket does not call UnmarshalBinary for such a
+				// frame, and UnmarshalBinary of nothing is not a decode of it
+				return nil, false
+			}
 			n := copy(buf, fr)
 			var p mq.Packet
 			var err error
@@ -397,6 +443,15 @@ func c14Run(pf *poolFrames, ops []poolOp, seq []int, globals0 digest.Sum) (f *co
 	return nil, true
 }
 
+// payloadCarried: an empty payload is nothing the frame carries (the frame
+// just ends): a decoder need not reset the destination's payload then.
+func payloadCarried(w, o *spec.Packet) string {
+	if len(w.Payload) == 0 || string(w.Payload) == string(o.Payload) {
+		return ""
+	}
+	return fmt.Sprintf("Payload: frame %q, packet %q", w.Payload, o.Payload)
+}
+
 // c14CarriesFrame: after frame was decoded into p (which may have held
 // other values before), every field the frame carries must read as the
 // frame says; fields the frame does not carry are not judged (a decoder
@@ -416,7 +471,7 @@ func c14CarriesFrame(p mq.Packet, frame []byte) string {
 	}
 	for _, d := range []string{
 		chk("PacketID", w.PacketID, o.PacketID), chk("Reason", w.Reason, o.Reason), chk("Topic", string(w.Topic), string(o.Topic)),
-		chk("Payload", string(w.Payload), string(o.Payload)), chk("ClientID", string(w.ClientID), string(o.ClientID)),
+		payloadCarried(w, o), chk("ClientID", string(w.ClientID), string(o.ClientID)),
 		chk("KeepAlive", w.KeepAlive, o.KeepAlive), chk("SessionPresent", w.SessionPresent, o.SessionPresent),
 	} {
 		if d != "" {
